@@ -16,6 +16,7 @@ import (
 	"fmt"
 	"os"
 	"path/filepath"
+	"runtime"
 	"runtime/debug"
 	"sort"
 	"strconv"
@@ -113,6 +114,26 @@ func enc(l []string) string {
 }
 
 func main() {
+	if len(os.Args) >= 3 && os.Args[1] == "memtest" {
+		p, err := loadSpec(os.Args[2])
+		if err != nil {
+			fmt.Println(err)
+			return
+		}
+		o := optrun.Opts{}
+		for _, kv := range os.Args[3:] {
+			i := strings.IndexByte(kv, '=')
+			o[kv[:i]] = kv[i+1:]
+		}
+		for i := 0; i < 3; i++ {
+			r := p.Taint(o)
+			runtime.GC()
+			var m runtime.MemStats
+			runtime.ReadMemStats(&m)
+			fmt.Printf("run %d flows=%d heap-in-use=%d MB\n", i, len(r.Flows), m.HeapInuse>>20)
+		}
+		return
+	}
 	if len(os.Args) >= 3 && os.Args[1] == "try" {
 		try(os.Args[2], os.Args[3:])
 		return
@@ -292,7 +313,14 @@ func main() {
 		// one analysis of a program that imports the standard library costs tens of seconds
 		vs := []variant{variants[0], variants[2], variants[4], variants[8]}
 		if lib.Thorough() {
-			vs = variants[:9]
+			// not `pkg-filter=all` here: with ".*" every function of the standard library is summarised eagerly
+			// (tens of GB on these programs)
+			vs = nil
+			for _, v := range variants[:12] {
+				if v.name != "pkg-filter=all" {
+					vs = append(vs, v)
+				}
+			}
 		}
 		t0 := time.Now()
 		sweep("testdata:"+t, t, vs, false)
